@@ -26,6 +26,7 @@ type Case struct {
 	Data      [][]string `json:"data,omitempty"`
 	Open      *OpenSpec  `json:"open,omitempty"`
 	Ops       []Op       `json:"ops"`
+	Motif     bool       `json:"motif,omitempty"` // the history contains a seam motif (informational: labels only)
 }
 
 // OpenSpec describes a w:tbl of a .docx written by another producer: the table under test is what
@@ -43,6 +44,7 @@ type OpenCell struct {
 	VM     string   `json:"vm,omitempty"`     // restart | continue | empty (<w:vMerge/>, which means continue)
 	NoPr   bool     `json:"nopr,omitempty"`   // the cell has no w:tcPr (only without span / vMerge)
 	Nested int      `json:"nested,omitempty"` // > 0: a nested 1-row table of that many cells precedes the paragraphs
+	NoW    bool     `json:"now,omitempty"`    // the w:tcPr (when there is one) holds no w:tcW: only w:gridSpan / w:vMerge, or nothing
 }
 
 func (c OpenCell) span() int {
@@ -56,7 +58,7 @@ var structKinds = []string{"insrow", "insrow", "approw", "delrow", "delrow", "de
 var cellKinds = []string{"settext", "settext", "settext", "setftext", "addftext", "setfmt", "clrcontent", "clrfmt", "addpara", "addpara", "addfpara", "clrparas",
 	"addlist", "nested", "nested", "nested", "nested", "padding", "textdir", "shade", "borders", "rmborders"}
 var mergeKinds = []string{"mergeh", "mergeh", "mergeh", "mergev", "mergev", "merger", "merger", "unmerge", "unmerge", "unmerge"}
-var readKinds = []string{"get", "get", "iter", "iter", "range", "range", "eachrow", "eachcol", "find"}
+var readKinds = []string{"get", "get", "iter", "iter", "range", "range", "eachrow", "eachcol", "find", "save"}
 var rowKinds = []string{"rowheight", "rowheightrange", "header", "headerrows", "keeptogether", "keepnext", "rowget"}
 var tableKinds = []string{"clear", "tstyle", "tstyle"}
 
@@ -326,6 +328,9 @@ func (g *caseGen) openSpec() *OpenSpec {
 			case spans && g.u("osp1", 8) == 0:
 				c.Span = 1 // the default, written explicitly
 			}
+			if !c.NoPr && g.u("onow", 4) == 0 {
+				c.NoW = true
+			}
 			rem -= c.span()
 			row = append(row, c)
 		}
@@ -372,6 +377,108 @@ func (g *caseGen) openSpec() *OpenSpec {
 	return o
 }
 
+// motif draws a short run of calls whose positions depend on one another, which independent selectors all but
+// never produce: two merged blocks that touch - the second directly below the first, starting at the same grid
+// column (2 in 3), or directly right of it, starting in the same row - each 1-3 rows high and 1-3 columns wide
+// (a block of one cell is no merge), made by MergeCellsRange or, where the block is one row / one column, by
+// MergeCellsHorizontal / MergeCellsVertical, in either order; then one call at the seam between them: a row or a
+// column deleted / inserted at the first or last line of a block (single or as a range across the seam), or a
+// block unmerged. rows x cols is the start size of the table; the blocks lie inside it.
+func (g *caseGen) motif(rows, cols int) []Op {
+	v := func(k int) int { return 32*k + 3 } // the selector of the valid index k
+	below := g.u("mbelow", 3) < 2
+	r0, c0 := g.u("mr0", 2), g.u("mc0", 2)
+	h1, w1 := 1+g.u("mh1", 3), 1+g.u("mw1", 3)
+	h2, w2 := 1+g.u("mh2", 3), 1+g.u("mw2", 3)
+	fit := func(x *int, lim int) {
+		if *x > lim {
+			*x = lim
+		}
+		if *x < 1 {
+			*x = 1
+		}
+	}
+	var r1, c1 int // top left cell of the second block
+	if below {
+		fit(&h1, rows-r0-1)
+		fit(&h2, rows-r0-h1)
+		fit(&w1, cols-c0)
+		fit(&w2, cols-c0)
+		r1, c1 = r0+h1, c0
+	} else {
+		fit(&w1, cols-c0-1)
+		fit(&w2, cols-c0-w1)
+		fit(&h1, rows-r0)
+		fit(&h2, rows-r0)
+		r1, c1 = r0, c0+w1
+	}
+	block := func(r, c, h, w int, shift int) (Op, bool) {
+		c -= shift // physical index: the cells of the block left of this one in the same rows have become one
+		specific := g.u("mspec", 2) == 0
+		switch {
+		case h == 1 && w == 1:
+			return Op{}, false
+		case h == 1 && specific:
+			return Op{K: "mergeh", I: []int{v(r), v(c), v(c + w - 1)}}, true
+		case w == 1 && specific:
+			return Op{K: "mergev", I: []int{v(r), v(r + h - 1), v(c)}}, true
+		}
+		return Op{K: "merger", I: []int{v(r), v(r + h - 1), v(c), v(c + w - 1)}}, true
+	}
+	var out []Op
+	first := g.u("morder", 4) > 0 // mostly the upper / left block first
+	shift := 0
+	if !below && first && g.u("mphys", 2) == 0 {
+		shift = w1 - 1 // address the right block by the physical index it has after the left block was merged (rows of the left block only)
+	}
+	a, okA := block(r0, c0, h1, w1, 0)
+	b, okB := block(r1, c1, h2, w2, shift)
+	if !first {
+		a, okA, b, okB = b, okB, a, okA
+	}
+	if okA {
+		out = append(out, a)
+	}
+	if okB {
+		out = append(out, b)
+	}
+	// the seam: a line of the first or of the second block
+	rowLines := []int{r0, r0 + h1 - 1, r1, r1 + h2 - 1}
+	colLines := []int{c0, c0 + w1 - 1, c1, c1 + w2 - 1}
+	rl, cl := pickOf(g, "mrl", rowLines), pickOf(g, "mcl", colLines)
+	if below && g.u("mseam", 2) == 0 {
+		rl = r1 - g.u("mseamd", 2) // the last row of the upper block or the first row of the lower one
+	}
+	var e Op
+	switch g.u("medit", 12) {
+	case 0, 1, 2:
+		e = Op{K: "delrow", I: []int{v(rl)}}
+	case 3, 4:
+		lo := rl - g.u("mlo", 2)
+		if lo < 0 {
+			lo = 0
+		}
+		e = Op{K: "delrows", I: []int{v(lo), v(rl)}}
+	case 5, 6:
+		e = Op{K: "insrow", I: []int{v(rl), g.dlen()}, S: g.texts(1, 4)}
+	case 7:
+		e = Op{K: "delcol", I: []int{v(cl)}}
+	case 8:
+		lo := cl - g.u("mlo", 2)
+		if lo < 0 {
+			lo = 0
+		}
+		e = Op{K: "delcols", I: []int{v(lo), v(cl)}}
+	case 9:
+		e = Op{K: "inscol", I: []int{v(cl), g.width(), g.dlen()}, S: g.texts(1, 4)}
+	case 10:
+		e = Op{K: "unmerge", I: []int{v(r0), v(c0)}}
+	default:
+		e = Op{K: "unmerge", I: []int{v(r1), v(c1)}}
+	}
+	return append(out, e)
+}
+
 func genCase(t *rapid.T) Case {
 	g := &caseGen{t: t}
 	c := Case{
@@ -393,7 +500,12 @@ func genCase(t *rapid.T) Case {
 		c.Rows = pickOf(g, "trows", []int{7, 9, 10, 10, 11, 11, 12, 12, 13, 16, 17, 33, 65})
 		c.Cols = 1 + g.u("tcols", 4)
 	}
-	if g.u("src", 5) == 0 && os.Getenv("C09_NOOPEN") != "1" { // a fifth of the cases start from a table read from a file
+	// one case in six carries a seam motif (see (*caseGen).motif): two merged blocks that touch, then an edit at the seam
+	motif := g.u("motif", 6) == 0 && os.Getenv("C09_NOMOTIF") != "1"
+	if motif {
+		c.Rows, c.Cols = 4+g.u("mrows", 3), 3+g.u("mcols", 3)
+	}
+	if !motif && g.u("src", 5) == 0 && os.Getenv("C09_NOOPEN") != "1" { // a fifth of the other cases start from a table read from a file
 		o := g.openSpec()
 		c = Case{Via: "open", Rows: len(o.Rows), Cols: len(o.Grid), Open: o}
 	}
@@ -469,5 +581,16 @@ func genCase(t *rapid.T) Case {
 	c.Ops = rapid.SliceOfN(one, 1, 12).Draw(t, "ops1")
 	c.Ops = append(c.Ops, rapid.SliceOfN(one, 0, 10).Draw(t, "ops2")...)
 	c.Ops = append(c.Ops, rapid.SliceOfN(one, 0, 8).Draw(t, "ops3")...)
+	if motif {
+		m := g.motif(c.Rows, c.Cols)
+		p := 0
+		if g.u("mlate", 2) == 0 {
+			p = g.u("mpos", len(c.Ops)+1)
+		}
+		ops := append([]Op{}, c.Ops[:p]...)
+		ops = append(ops, m...)
+		c.Ops = append(ops, c.Ops[p:]...)
+		c.Motif = true
+	}
 	return c
 }
